@@ -38,9 +38,12 @@ class Obs:
         self.exceptions = list(sim.exceptions)
         self.rpc_replies = list(sim.rpc_replies)
         self.commits = sim.commit_count
+        self.monitor = list(sim.monitor)
+        self.flags = set(sim.flags)
         self.procs = [
             {"label": p.label, "job_i": p.job_i, "reads": list(p.reads), "writes": list(p.writes),
-             "rc": getattr(p, "returncode", None), "start": p.started_at}
+             "rc": getattr(p, "returncode", None), "start": p.started_at,
+             "announced": dict(p.announced)}
             for p in sim.procs
         ]
         self.unhandled = [str(c.get("message")) + " " + repr(c.get("exception")) for c in sim.loop.unhandled]
@@ -53,9 +56,41 @@ class Obs:
                 if want_raw:
                     self.raw = canon.canon_raw(sim.db._con)
                 self.draining = sim.handler.scheduler.draining
+                self._read_db(sim.db._con)
             except Exception as exc:  # noqa: BLE001
                 self.graph_error = repr(exc)
         self.fs = sim.world.fs_state()
+
+    def _read_db(self, con):
+        from stepup.core.enums import FileState, StepState
+        from stepup.core.hash import FileHash
+
+        self.db_files = {}
+        for label, det, state, hjs in con.execute(
+            "SELECT label, detached, state, hash FROM node JOIN file ON file.node = node.i"
+        ):
+            fh = FileHash.from_json(hjs)
+            self.db_files[label] = (FileState(state).name, None if fh.is_unknown else fh.digest.hex(), bool(det))
+        self.db_steps = {}
+        for label, det, state, need, ineed, deferred, hh in con.execute(
+            "SELECT label, detached, state, need, _implied_need, deferred, _has_hash "
+            "FROM node JOIN step ON step.node = node.i"
+        ):
+            self.db_steps[label] = {"state": StepState(state).name, "detached": bool(det), "need": need,
+                                    "implied": ineed, "deferred": bool(deferred), "has_hash": bool(hh)}
+        self.db_inputs = {}
+        for slabel, flabel, dyn in con.execute(
+            "SELECT s.label, f.label, EXISTS(SELECT 1 FROM dynamic_dep x WHERE x.i = d.i) "
+            "FROM dependency d JOIN node s ON s.i = d.sink JOIN node f ON f.i = d.source "
+            "WHERE s.kind = 'step' AND f.kind = 'file'"
+        ):
+            self.db_inputs.setdefault(slabel, []).append((flabel, bool(dyn)))
+        self.db_outputs = {}
+        for slabel, flabel in con.execute(
+            "SELECT s.label, f.label FROM dependency d JOIN node s ON s.i = d.source "
+            "JOIN node f ON f.i = d.sink WHERE s.kind = 'step' AND f.kind = 'file'"
+        ):
+            self.db_outputs.setdefault(slabel, []).append(flabel)
 
     @property
     def started(self):
